@@ -20,13 +20,18 @@
 (***************************************************************************)
 EXTENDS Integers, Sequences, FiniteSets, TLC, Json
 
-CONSTANTS NC, UseLock, MaxOps, SchedLen
+CONSTANTS NC, UseLock, MaxOps, SchedLen, OpFilter    \* OpFilter: "all" | "vec" (only the slice parameter)
 
 Clients == 1..NC
-Params == 1..2
-LeafOrder == <<1, 2, 1>>
+Params == 1..3
+LeafOrder(o) == IF o.p = 3 THEN <<3>> ELSE <<1, 2, 1>>
 OpSet == {[op |-> "upd", p |-> 1, v |-> 2], [op |-> "upd", p |-> 2, v |-> 3], [op |-> "upd", p |-> 1, v |-> 4],
-          [op |-> "get", p |-> 1, v |-> 0], [op |-> "art", p |-> 1, v |-> 0], [op |-> "art", p |-> 2, v |-> 0]}
+          [op |-> "get", p |-> 1, v |-> 0], [op |-> "art", p |-> 1, v |-> 0], [op |-> "art", p |-> 2, v |-> 0],
+          \* parameter 3 is slice valued (v = tag*10 + length); producer 3 hands out an artifact that is
+          \* serialised AFTER Artifact() returned, i.e. outside the lock ("post" step below)
+          [op |-> "upd", p |-> 3, v |-> 24], [op |-> "upd", p |-> 3, v |-> 33], [op |-> "art", p |-> 3, v |-> 0]}
+
+Ops == IF OpFilter = "vec" THEN {o \in OpSet : o.p = 3} ELSE OpSet
 
 VARIABLES pval, lock, pc, cur, k, acc, snap, progs, done, sched, torn
 vars == <<pval, lock, pc, cur, k, acc, snap, progs, done, sched, torn>>
@@ -67,21 +72,29 @@ StepIn(c) ==
        \/ /\ o.op = "upd" /\ pval' = [pval EXCEPT ![o.p] = o.v] /\ Finish(c)
           /\ UNCHANGED <<k, acc, torn>>
        \/ /\ o.op = "get" /\ Finish(c) /\ UNCHANGED <<pval, k, acc, torn>>
-       \/ /\ o.op = "art" /\ k[c] < Len(LeafOrder)
-          /\ LET rd == Append(acc[c], pval[LeafOrder[k[c] + 1]]) IN
+       \/ /\ o.op = "art" /\ k[c] < Len(LeafOrder(o))
+          /\ LET rd == Append(acc[c], pval[LeafOrder(o)[k[c] + 1]]) IN
              /\ acc' = [acc EXCEPT ![c] = rd] /\ k' = [k EXCEPT ![c] = @ + 1]
-             /\ IF k[c] + 1 = Len(LeafOrder)
-                THEN /\ Finish(c)
-                     /\ torn' = (torn \/ rd # [i \in 1..Len(LeafOrder) |-> snap[c][LeafOrder[i]]])
+             /\ IF k[c] + 1 = Len(LeafOrder(o))
+                THEN \* Artifact() returns (lock released); the artifact is written in a later step
+                     /\ pc' = [pc EXCEPT ![c] = "post"] /\ lock' = (IF lock = c THEN 0 ELSE lock)
+                     /\ torn' = (torn \/ rd # [i \in 1..Len(LeafOrder(o)) |-> snap[c][LeafOrder(o)[i]]])
+                     /\ UNCHANGED done
                 ELSE UNCHANGED <<pc, done, lock, torn>>
           /\ UNCHANGED pval
     /\ UNCHANGED <<cur, snap, progs>> /\ Adv(c)
 
+WriteOut(c) ==      \* the client serialises the artifact it was handed (outside the lock); a value: nothing can change it
+    /\ pc[c] = "post"
+    /\ pc' = [pc EXCEPT ![c] = "idle"] /\ done' = [done EXCEPT ![c] = @ + 1]
+    /\ UNCHANGED <<pval, lock, cur, k, acc, snap, progs, torn>> /\ Adv(c)
+
 Next ==
     /\ Len(sched) < SchedLen
-    /\ \/ \E c \in Clients, o \in OpSet : Start(c, o)
+    /\ \/ \E c \in Clients, o \in Ops : Start(c, o)
        \/ \E c \in Clients : Acquire(c)
        \/ \E c \in Clients : StepIn(c)
+       \/ \E c \in Clients : WriteOut(c)
 
 Spec == Init /\ [][Next]_vars
 
